@@ -34,10 +34,11 @@ from props import c09_gen
 PID = 'C09'
 ENGINES = ['sqlite', 'duckdb', 'psql', 'bigquery', 'trino', 'presto', 'clickhouse', 'databricks']
 PFX = 'zq'
-ALL_GOOD = 31
+ALL_GOOD = 63
 BITS = [(1, 'brackets / string literals do not balance'), (2, 'text does not tokenize into a bracket tree'),
         (4, 'alias.column or table name out of scope (FROM aliases / WITH order)'),
-        (8, 'template placeholder left in the text'), (16, 'Logica variable name leaked into the text')]
+        (8, 'template placeholder left in the text'), (16, 'Logica variable name leaked into the text'),
+        (32, '`--` after other text on its line: the rest of the line is an SQL comment')]
 STRUCTURAL_SQLITE = ('no such column', 'no such table')   # what the static scoper claims to exclude
 
 
@@ -540,6 +541,9 @@ def damaged_texts(engine, text):
   m = first(r' AS \(SELECT')
   if m:
     out.append(('dropped an opening parenthesis', 1, text[:m.start() + 4] + text[m.start() + 5:]))
+  m = first(r'\w AS \w')
+  if m:
+    out.append(('a double minus in front of an alias', 32, text[:m.start() + 1] + ' --x' + text[m.start() + 1:]))
   m = first(r'\nFROM\n\s+\w+ AS (\w+)(?=,|\n|$)')
   if m and re.search(r'(?<![\w.])%s\.' % re.escape(m.group(1)), text) and \
       len(re.findall(r'(?i)\bAS\s+%s\b' % re.escape(m.group(1)), text)) == 1:
